@@ -50,7 +50,7 @@ ASSUMPTIONS = [
     "critical nodes (root, furcations, tips) have distinct (x, y, z, r) keys",
     "spacing > 0; finite coordinates",
 ]
-REQUIRED = ["branch_results_kept_across_calls", "branch_results_overwritten_then_asked_again", "resamplings_under_custom_names_and_subclasses", "tree_resamplings", "branches_checked", "sample_points_checked", "zero_length_branches",
+REQUIRED = ["branch_results_kept_across_calls", "branches_from_positions_only", "branches_from_a_batch", "branch_results_overwritten_then_asked_again", "resamplings_under_custom_names_and_subclasses", "tree_resamplings", "branches_checked", "sample_points_checked", "zero_length_branches",
             "two_node_branches_longer_than_spacing", "exact_multiple_spacings", "root_one_child",
             "non_soma_roots", "instance_reused", "branch_isometric_checked", "integer_coordinate_branches",
             "branch_linear_checked", "branch_smoother_checked", "tree_smoother_checked", "assembler_identity_checked",
@@ -404,7 +404,17 @@ def exec_branch(ctx, case):
         return
     br = brs[case["pick"] % len(brs)]
     if case.get("detached"):
-        br = Branch.from_xyzr(br.xyzr().copy())
+        if case["pick"] % 3 == 1:
+            # positions only: the radius is filled with 1 (documented), the branch is that polyline
+            br = Branch.from_xyzr(br.xyzr()[:, :3].copy())
+            ctx.count("branches_from_positions_only")
+        elif case["pick"] % 3 == 2 and len(br) >= 3:
+            # one of a batch of equally long branches (here: the branch and its reversal)
+            both_ = np.stack([br.xyzr(), br.xyzr()[::-1]]).astype(np.float32)
+            br = Branch.from_xyzr_batch(both_)[1]
+            ctx.count("branches_from_a_batch")
+        else:
+            br = Branch.from_xyzr(br.xyzr().copy())
     if case.get("int_coords"):
         # a branch given in integer (voxel) coordinates: resampled points lie between voxels
         xi = np.round(br.xyzr() * 2).astype(np.int64)
